@@ -1,0 +1,50 @@
+//go:build verif
+
+package toposort
+
+// Contracts for the verification machinery in /verif (comment-only file;
+// excluded from every build without the "verif" tag).
+
+// ---- C02: field order does not depend on map iteration order ----
+//
+// The nodes of a graph are collected from a Go map (GraphBuilder.Build), one node
+// per feature. Sort orders them (and the strongly connected components) with
+// compareNodeByName; the result is independent of the collection order exactly
+// when that comparison is a strict total order on distinct features: it must
+// never report two different features as equal.
+
+// the string of an index in the runtime's label table; distinct indexes have
+// distinct strings (the table is a bijection: monitor invariant of
+// internal/core/runtime.index, verified under C19)
+//@ spec func rawOf(i int64) string
+//@ axiom rawOf_injective: forall i, j int64 :: {rawOf(i), rawOf(j)} rawOf(i) == rawOf(j) ==> i == j
+
+//@ func (adt.Feature).RawString
+//@   assumed A-int: index.IndexToString(f.safeIndex()) with the label table a bijection (C19)
+//@   pure
+//@   arith bv
+//@   ensures result == rawOf(ite(int64(f >> 4) == adt.MaxIndex, 0, int64(f >> 4)))
+
+//@ func cmp.Compare
+//@   assumed A-ext cmp.Compare: three-way comparison in the natural order of the type
+//@   pure
+//@   ensures result == ite(x < y, -1, ite(x > y, 1, 0))
+
+// spec order: integer labels first by index, then by raw string, then by label type
+//@ spec func featIdx(f adt.Feature) int64 { int64(f >> 4) }
+//@ spec func featTyp(f adt.Feature) adt.FeatureType { adt.FeatureType(f & 15) }
+//@ spec func sgn64(a int64, b int64) int { ite(a < b, -1, ite(a > b, 1, 0)) }
+//@ spec func nodeCmp(a adt.Feature, b adt.Feature) int { ite(featTyp(a) == adt.IntLabel && featTyp(b) == adt.IntLabel, sgn64(featIdx(a), featIdx(b)), ite(featTyp(a) == adt.IntLabel, -1, ite(featTyp(b) == adt.IntLabel, 1, ite(lexcmp(rawOf(featIdx(a)), rawOf(featIdx(b))) != 0, lexcmp(rawOf(featIdx(a)), rawOf(featIdx(b))), sgn64(int64(featTyp(a)), int64(featTyp(b))))))) }
+
+// (P) C02: two nodes compare equal only if they carry the same feature
+//@ func (*indexComparison).compareNodeByName
+//@   strings abstract
+//@   requires a != nil && b != nil && index != nil
+//@   requires featIdx(a.Feature) != adt.MaxIndex && featIdx(b.Feature) != adt.MaxIndex
+//@   ensures [spec] result == nodeCmp(a.Feature, b.Feature)
+//@   ensures [strict] result == 0 ==> a.Feature == b.Feature
+//@   assigns nothing
+
+//@ lemma nodeCmp_strict: forall a, b adt.Feature :: nodeCmp(a, b) == 0 ==> a == b
+//@ lemma nodeCmp_antisym: forall a, b adt.Feature :: nodeCmp(a, b) == 0 - nodeCmp(b, a)
+//@ lemma nodeCmp_trans: forall a, b, c adt.Feature :: nodeCmp(a, b) <= 0 && nodeCmp(b, c) <= 0 ==> nodeCmp(a, c) <= 0
